@@ -115,6 +115,24 @@ fn verif_native_reader_witness() {
         let got = read_back(text);
         if got.as_ref().map(|g| g != want).unwrap_or(true) && bad.len() < 5 { bad.push(format!("{:?} reads as {:?}, expected {:?}", text, got, want)); }
     }
+    // data -> values (read_literal / eval_primitive): the kind of every leaf survives quoting, at every nesting
+    let programs: [(&str, &str); 16] = [
+        ("(string? (car (cdr '(a \"b\" #\\c))))", "datum #t"), ("(symbol? (car '(a \"b\")))", "datum #t"), ("(char? (car (cdr (cdr '(a \"b\" #\\c)))))", "datum #t"),
+        ("(symbol? (vector-ref '#(a \"b\") 0))", "datum #t"), ("(string? (vector-ref '#(a \"b\") 1))", "datum #t"),
+        ("(= (car (cdr '(1 2/4 -3))) 1/2)", "datum #t"), ("(= (vector-ref '#(1 -2/4) 1) -1/2)", "datum #t"), ("(= (car (cdr (cdr '(1 2/4 -3)))) -3)", "datum #t"),
+        ("(boolean? (car '(#f)))", "datum #t"), ("(car '(#f))", "datum #f"), ("(null? (vector-ref '#(()) 0))", "datum #t"),
+        ("(vector? (cdr '(1 . #(2))))", "datum #t"), ("(vector-ref (cdr '(1 . #(2 3))) 1)", "datum 3"),
+        ("(vector? (car (cdr '(1 #(2)))))", "datum #t"), ("(pair? (vector-ref '#((1 . 2)) 0))", "datum #t"), ("(cdr (vector-ref '#((1 . 2)) 0))", "datum 2"),
+    ];
+    for (program, want) in programs.iter() {
+        n += 1;
+        let t = program.to_string();
+        let got = std::panic::catch_unwind(move || {
+            let mut it = Interpreter::<f32>::new_with_stdlib();
+            match it.eval(t.chars()) { Ok(v) => format!("datum {}", v.map(|v| v.to_string()).unwrap_or_default()), Err(e) => format!("error {}", e) }
+        }).unwrap_or_else(|_| "PANIC".to_string());
+        if got != *want && bad.len() < 5 { bad.push(format!("{:?} evaluates to {:?}, expected {:?}", program, got, want)); }
+    }
     // BOUNDED part: all token sequences of length <= 6 over REF_TOKENS (137 257 texts)
     let mut m = 0;
     for len in 0..=6usize {
